@@ -102,8 +102,18 @@ Definition run_seq_old (w h : Z) (prefix seq : list Z) : list Z :=
 Definition run_hex (s : list Z) : list Z :=
   let r := hex_macro_t s HFirst false [] 0 [] 0 in
   match fst r with
-  | Some m => [1; snd r; zlen m; hex_max_rep s HFirst 0]
-  | None => [0; snd r; 0; hex_max_rep s HFirst 0]
+  | Some m => [1; snd r; zlen m; hex_max_rep s HFirst 0; hex_reps s HFirst false 0; zlen s]
+  | None => [0; snd r; 0; hex_max_rep s HFirst 0; hex_reps s HFirst false 0; zlen s]
+  end.
+(* macro replay: the definitions are fed to a fresh terminal (character-level model), then the macro table it holds is measured:
+   -> characters replayed by invoking [id] with nesting budget [fuel] (-2: deeper) ; longest body ; most invocations in a body ; B * geom c fuel *)
+Definition run_macro_seq (fuel : Z) (defs : list Z) (id : Z) : list Z :=
+  match feed (ansi_init 0 false 80 25) defs with
+  | inl (Some m) => let ms := macros (ps m) in
+                    [match macro_chars (Z.to_nat fuel) ms id with Some n => n | None => -2 end;
+                     macros_maxlen ms; macros_maxinv ms; macros_maxlen ms * geom (macros_maxinv ms) (Z.to_nat fuel)]
+  | inl None => [-3]
+  | inr l => l
   end.
 
 Definition run_glyphs (h n : Z) : list Z := [glyph_iters (Z.to_N h) (repeat 0%N (Z.to_nat n))].
